@@ -2,6 +2,7 @@
 #![feature(allocator_api)]
 use vstd::prelude::*;
 use vstd::std_specs::iter::IteratorSpec;
+use vstd::arithmetic::power2::pow2;
 verus! {
 //@ include prelude/core.rs
 //@ include prelude/std_specs.rs
@@ -37,6 +38,8 @@ pub struct BigUint {
 //@ include prelude/shiftnorm.rs
 //@ include prelude/bitval.rs
 //@ include prelude/bitsvalue.rs
+//@ include prelude/rne.rs
+//@ include prelude/floatsem.rs
 
 impl BigUint {
     // contract-only: `Zero::is_zero` re-homed as an inherent method (trait impl in src/biguint.rs; body proved below)
@@ -74,6 +77,267 @@ impl BigUint {
         self.data.len() as u64 * u64::from(big_digit::BITS) - zeros
     }
 //@ end
+}
+
+/// value-level reading of the digit-level mantissa: for a value x of two or more digits with bit length e + 64,
+/// hb_spec is floor(x / 2^e) with its lowest bit OR-ed with "x mod 2^e != 0" (round to odd)
+pub proof fn lemma_hb_value(s: Seq<u64>)
+    requires wf(s), s.len() >= 2
+    ensures ({
+        let x = val(s); let e = fexp(s) as nat; let pe = pow2(e);
+        &&& x / pe < 0x1_0000_0000_0000_0000
+        &&& x / pe >= 0x8000_0000_0000_0000
+        &&& hb_spec(s) == (if x % pe != 0 { ((x / pe) as u64) | 1u64 } else { (x / pe) as u64 })
+    })
+{
+    let n = s.len() as int;
+    let top = s[n - 1];
+    let sec = s[n - 2];
+    let t = nbits(top);
+    let x = val(s);
+    let e = fexp(s) as nat;
+    let pe = pow2(e);
+    lemma_nbits_range(top);
+    lemma_lz_scale(top);
+    vstd::arithmetic::power2::lemma2_to64();
+    vstd::arithmetic::power2::lemma_pow2_pos(e);
+    let i2 = (n - 2) as nat;
+    let lowv = valp(s, i2);
+    // x == lowv + pw(n-2) * (sec + B * top)
+    lemma_digit_split(s, i2);
+    let hi_seq = s.subrange(n - 1, n);
+    assert(hi_seq =~= seq![top]);
+    lemma_val_single(top);
+    assert(val(s.subrange(i2 as int + 1, n)) == top as nat);
+    let y = sec as nat + B() * (top as nat);
+    let p = pw(i2);
+    lemma_pw_pos(i2);
+    lemma_pw_p2_(i2);
+    assert(x == lowv + p * y);
+    assert(lowv < p);
+    // x / p == y, x % p == lowv
+    assert(x == p * y + lowv) by (nonlinear_arith) requires x == lowv + p * y;
+    assert(x == y * p + lowv) by (nonlinear_arith) requires x == lowv + p * y;
+    vstd::arithmetic::div_mod::lemma_fundamental_div_mod_converse(x as int, p as int, y as int, lowv as int);
+    lemma_valp_zero_iff(s, i2);
+    if t == 64 {
+        // e == 64 (n - 1): pe == p * B
+        assert(e == 64 * i2 + 64);
+        vstd::arithmetic::power2::lemma_pow2_adds(64 * i2, 64);
+        assert(pe == p * B());
+        // x == (p * B) * top + (p * sec + lowv)
+        let rem = p * (sec as nat) + lowv;
+        assert(x == (p * B()) * (top as nat) + rem) by (nonlinear_arith) requires x == p * y + lowv, y == sec as nat + B() * (top as nat), rem == p * (sec as nat) + lowv;
+        assert(rem < p * B()) by (nonlinear_arith) requires rem == p * (sec as nat) + lowv, lowv < p, (sec as nat) + 1 <= B();
+        assert(x == (top as nat) * pe + rem) by (nonlinear_arith) requires x == (p * B()) * (top as nat) + rem, pe == p * B();
+        vstd::arithmetic::div_mod::lemma_fundamental_div_mod_converse(x as int, pe as int, top as int, rem as int);
+        assert(x / pe == top as nat && x % pe == rem);
+        // top has its top bit set
+        assert(top >= 0x8000_0000_0000_0000u64);
+        // rem != 0 <==> some digit below the top is non-zero
+        let st = any_nz(s, 0, n - 1);
+        if rem != 0 {
+            if sec == 0 {
+                assert(p * 0 == 0) by (nonlinear_arith);
+                assert(lowv != 0);
+                let j = choose|j: int| 0 <= j < i2 && s[j] != 0;
+                assert(any_nz(s, 0, n - 1));
+            } else { assert(s[n - 2] != 0); assert(any_nz(s, 0, n - 1)); }
+        } else {
+            assert(lowv == 0);
+            assert(p * (sec as nat) == 0);
+            if sec != 0 { assert(p * (sec as nat) >= 1) by (nonlinear_arith) requires p >= 1, sec as nat >= 1; }
+            assert(sec == 0);
+            if any_nz(s, 0, n - 1) {
+                let j = choose|j: int| 0 <= j < n - 1 && s[j] != 0;
+                assert(j < i2 || j == n - 2);
+            }
+        }
+        assert(st == (rem != 0));
+        assert((top | 0u64) == top) by (bit_vector);
+        assert(b2u(st) == (if st { 1u64 } else { 0u64 }));
+    } else {
+        let tn = t as nat;
+        let c = (64 - t) as nat;
+        let pt = pow2(tn);
+        let pc = pow2(c);
+        vstd::arithmetic::power2::lemma_pow2_pos(tn);
+        vstd::arithmetic::power2::lemma_pow2_pos(c);
+        vstd::arithmetic::power2::lemma_pow2_adds(tn, c);
+        assert(pt * pc == B());
+        assert(e == 64 * i2 + tn);
+        vstd::arithmetic::power2::lemma_pow2_adds(64 * i2, tn);
+        assert(pe == p * pt);
+        // y == pt * (top * pc + sec / pt) + sec % pt
+        let sq = (sec as nat) / pt;
+        let sr = (sec as nat) % pt;
+        vstd::arithmetic::div_mod::lemma_fundamental_div_mod(sec as int, pt as int);
+        vstd::arithmetic::div_mod::lemma_mod_bound(sec as int, pt as int);
+        let m0 = (top as nat) * pc + sq;
+        assert(y == pt * m0 + sr) by (nonlinear_arith) requires y == sec as nat + B() * (top as nat), sec as nat == pt * sq + sr, pt * pc == B(), m0 == (top as nat) * pc + sq;
+        // x == pe * m0 + (p * sr + lowv)
+        let rem = p * sr + lowv;
+        assert(x == pe * m0 + rem) by (nonlinear_arith) requires x == p * y + lowv, y == pt * m0 + sr, pe == p * pt, rem == p * sr + lowv;
+        assert(rem < pe) by (nonlinear_arith) requires rem == p * sr + lowv, lowv < p, sr + 1 <= pt, pe == p * pt;
+        assert(x == m0 * pe + rem) by (nonlinear_arith) requires x == pe * m0 + rem;
+        vstd::arithmetic::div_mod::lemma_fundamental_div_mod_converse(x as int, pe as int, m0 as int, rem as int);
+        assert(x / pe == m0 && x % pe == rem);
+        // machine form of m0
+        let tu = t as u64;
+        let cu = (64 - t) as u64;
+        assert(1 <= tu <= 63 && cu == sub(64u64, tu));
+        // top < 2^t, top >= 2^(t-1)
+        assert(vstd::std_specs::bits::u64_leading_zeros(top) as nat == c);
+        assert((top as nat) * pc >= 0x8000_0000_0000_0000nat && (top as nat) * pc < B());
+        assert((top as nat) < pt) by (nonlinear_arith) requires (top as nat) * pc < pt * pc, pc >= 1;
+        assert(2 * (top as nat) >= pt) by (nonlinear_arith) requires 2 * ((top as nat) * pc) >= pt * pc, pc >= 1;
+        vstd::bits::lemma_u64_shl_is_mul(top, cu);
+        assert((top << cu) as nat == (top as nat) * pc);
+        vstd::bits::lemma_u64_shr_is_div(sec, tu);
+        assert((sec >> tu) as nat == sq);
+        let a = top << cu;
+        let b = sec >> tu;
+        assert((a | b) == add(a, b)) by (bit_vector) requires a == top << cu, b == sec >> tu, cu == sub(64u64, tu), 1 <= tu <= 63;
+        assert(sq < pc) by {
+            assert(pt * sq <= sec as nat);
+            if sq >= pc { assert(pt * sq >= pt * pc) by (nonlinear_arith) requires sq >= pc, pt >= 1; }
+        }
+        assert((top as nat) * pc + sq < B()) by (nonlinear_arith) requires (top as nat) + 1 <= pt, sq < pc, pt * pc == B();
+        assert((a as nat) + (b as nat) < B());
+        assert((a | b) as nat == m0);
+        assert(m0 < B());
+        assert(2 * m0 >= B()) by (nonlinear_arith) requires m0 == (top as nat) * pc + sq, 2 * (top as nat) >= pt, pt * pc == B();
+        // stickiness
+        let lowbits = sec << cu;
+        vstd::bits::lemma_u64_low_bits_mask_is_mod(sec, tn);
+        assert(((sec << cu) != 0) == ((sec & (sub(1u64 << tu, 1u64))) != 0)) by (bit_vector) requires cu == sub(64u64, tu), 1 <= tu <= 63;
+        vstd::arithmetic::power2::lemma_pow2_strictly_increases(0, c);
+        assert(pc >= 2);
+        assert(pt < B()) by (nonlinear_arith) requires pt * pc == B(), pc >= 2, pt >= 1;
+        vstd::bits::lemma_u64_shl_is_mul(1u64, tu);
+        assert(vstd::bits::low_bits_mask(tn) == pt - 1);
+        assert((lowbits != 0) == (sr != 0));
+        let st = lowbits != 0 || any_nz(s, 0, n - 2);
+        if rem != 0 {
+            if sr == 0 {
+                assert(p * 0 == 0) by (nonlinear_arith);
+                assert(lowv != 0);
+                let j = choose|j: int| 0 <= j < i2 && s[j] != 0;
+                assert(any_nz(s, 0, n - 2));
+            }
+        } else {
+            assert(lowv == 0);
+            if sr != 0 { assert(p * sr >= 1) by (nonlinear_arith) requires p >= 1, sr >= 1; }
+            assert(sr == 0);
+            if any_nz(s, 0, n - 2) {
+                let j = choose|j: int| 0 <= j < n - 2 && s[j] != 0;
+            }
+        }
+        assert(st == (rem != 0));
+        assert(((a | b) | 0u64) == (a | b)) by (bit_vector);
+    }
+}
+
+/// the number the float tail computes - round(mantissa, p) * 2^exponent - is the value rounded to p significant bits;
+/// beyond maxexp + 64 bits it is at least 2^maxexp
+pub proof fn lemma_float_value(s: Seq<u64>, p: nat, maxexp: nat)
+    requires wf(s), 2 <= 64 - p <= 62, s.len() < MAX_DIGITS()
+    ensures ({
+        let m = fmant(s); let e = fexp(s) as nat;
+        &&& rne_sig(m as nat, p, nbits(m) as nat) * pow2(e) == rne_sig(val(s), p, blen(s))
+        &&& rne_sig(m as nat, p, nbits(m) as nat) >= 0
+        &&& (s.len() >= 2 ==> rne_sig(m as nat, p, nbits(m) as nat) >= 0x8000_0000_0000_0000)
+        &&& (s.len() >= 2 ==> rne_sig(val(s), p, blen(s)) >= pow2(e + 63))
+        &&& (s.len() <= 1 ==> rne_sig(val(s), p, blen(s)) <= 0x1_0000_0000_0000_0000)
+    })
+{
+    vstd::arithmetic::power2::lemma2_to64();
+    let m = fmant(s);
+    let e = fexp(s) as nat;
+    if s.len() == 0 {
+        vstd::std_specs::bits::axiom_u64_leading_zeros(0u64);
+        assert(nbits(0u64) == 0);
+        assert(0 * pow2(0) == 0) by (nonlinear_arith);
+    } else if s.len() == 1 {
+        lemma_val_single(s[0]);
+        assert(s =~= seq![s[0]]);
+        assert(val(s) == s[0] as nat);
+        assert(blen(s) == nbits(s[0]) as nat);
+        let y = rne_sig(m as nat, p, nbits(m) as nat);
+        assert(y * 1 == y) by (nonlinear_arith);
+        lemma_nbits_range(s[0]);
+        if m != 0 {
+            lemma_lz_scale(m);
+            let lz = vstd::std_specs::bits::u64_leading_zeros(m) as nat;
+            vstd::arithmetic::power2::lemma_pow2_adds(nbits(m) as nat, lz);
+            vstd::arithmetic::power2::lemma_pow2_pos(lz);
+            assert((m as nat) < pow2(nbits(m) as nat)) by (nonlinear_arith)
+                requires (m as nat) * pow2(lz) < pow2(nbits(m) as nat) * pow2(lz), pow2(lz) >= 1;
+        } else { vstd::arithmetic::power2::lemma_pow2_pos(nbits(m) as nat); }
+        lemma_rne_bound(m as nat, nbits(m) as nat, p);
+    } else {
+        lemma_hb_value(s);
+        lemma_fls_mant(s);
+        let x = val(s);
+        let pe = pow2(e);
+        let m0 = (x / pe) as u64;
+        let j = (64 - p) as nat;
+        lemma_rne_sticky(x, e, m0, m, j);
+        assert(blen(s) == e + 64);
+        assert((blen(s) - p) as nat == e + j);
+        // the rounded mantissa is at least 2^63
+        let pj = pow2(j);
+        vstd::arithmetic::power2::lemma_pow2_pos(j);
+        vstd::arithmetic::power2::lemma_pow2_adds(j, (63 - j) as nat);
+        let q = (m as nat) / pj;
+        vstd::arithmetic::div_mod::lemma_fundamental_div_mod(m as int, pj as int);
+        vstd::arithmetic::div_mod::lemma_mod_bound(m as int, pj as int);
+        assert(m >= 0x8000_0000_0000_0000u64) by {
+            if x % pe != 0 { assert((m0 | 1u64) >= m0) by (bit_vector); }
+        }
+        let c = pow2((63 - j) as nat);
+        vstd::arithmetic::power2::lemma_pow2_unfold(64);
+        assert(j + (63 - j) as nat == 63);
+        assert(pj * c == 0x8000_0000_0000_0000);
+        assert(q >= c) by {
+            if q < c {
+                assert(pj * (q + 1) <= pj * c) by (nonlinear_arith) requires q + 1 <= c, pj >= 0;
+                assert(pj * (q + 1) == pj * q + pj) by (nonlinear_arith);
+                assert((m as nat) < pj * c);
+            }
+        }
+        let y = rne_shift(m as nat, j);
+        assert(y >= q * pj) by { assert((q + 1) * pj >= q * pj) by (nonlinear_arith) requires pj >= 0; }
+        assert(q * pj >= c * pj) by (nonlinear_arith) requires q >= c, pj >= 0;
+        assert(c * pj == pj * c) by (nonlinear_arith);
+        assert(y >= 0x8000_0000_0000_0000);
+        vstd::arithmetic::power2::lemma_pow2_pos(e);
+        vstd::arithmetic::power2::lemma_pow2_adds(e, 63);
+        assert(y * pe >= 0x8000_0000_0000_0000 * pe) by (nonlinear_arith) requires y >= 0x8000_0000_0000_0000, pe >= 0;
+        assert(pow2(e + 63) == pe * 0x8000_0000_0000_0000);
+    }
+}
+/// rounding a value below 2^l never exceeds 2^l
+pub proof fn lemma_rne_bound(x: nat, l: nat, p: nat)
+    requires x < pow2(l), l <= 64, p >= 1
+    ensures rne_sig(x, p, l) <= 0x1_0000_0000_0000_0000
+{
+    vstd::arithmetic::power2::lemma2_to64();
+    if l < 64 { vstd::arithmetic::power2::lemma_pow2_strictly_increases(l, 64); }
+    if l > p {
+        let k = (l - p) as nat;
+        let pk = pow2(k);
+        vstd::arithmetic::power2::lemma_pow2_pos(k);
+        vstd::arithmetic::power2::lemma_pow2_adds(k, p);
+        let q = x / pk;
+        vstd::arithmetic::div_mod::lemma_fundamental_div_mod(x as int, pk as int);
+        vstd::arithmetic::div_mod::lemma_mod_bound(x as int, pk as int);
+        let pp = pow2(p);
+        assert(q < pp) by { if q >= pp { assert(pk * q >= pk * pp) by (nonlinear_arith) requires q >= pp, pk >= 0; } }
+        assert((q + 1) * pk <= pp * pk) by (nonlinear_arith) requires q + 1 <= pp, pk >= 0;
+        assert(q * pk <= pp * pk) by (nonlinear_arith) requires q <= pp, pk >= 0;
+        assert(pp * pk == pow2(l)) by (nonlinear_arith) requires pk * pp == pow2(l);
+    }
 }
 
 // the generic helper fls (T: PrimInt, num_traits) at T = u64 (rule R56 names this instance fls64)
@@ -366,11 +630,14 @@ impl BigUint {
 //+{
         requires self.wf()
         ensures r is Some,
-            r.unwrap() == (if fexp(self.dg()) > 1024 { finf64() } else { fmul64(fcast64(fmant(self.dg())), fpow2_64(fexp(self.dg()) as i32)) }),
+            f_rounds_to(r.unwrap().finite(), r.unwrap().integral(), r.unwrap().ival(), self.v(), blen(self.dg()), 53, 1024),
 //+}
     {
 //+{
-        proof { axiom_vec_u64_len(&self.data); lemma_fls_mant(self.data@); }
+        proof { axiom_vec_u64_len(&self.data); lemma_fls_mant(self.data@); lemma_float_value(self.data@, 53, 1024); 
+            axiom_fcast64(fmant(self.data@)); axiom_finf64();
+            if fexp(self.data@) + 63 > 1024 { vstd::arithmetic::power2::lemma_pow2_strictly_increases(1024, (fexp(self.data@) + 63) as nat); }
+            if fexp(self.data@) < 0x7fff_ffff { axiom_fmul_pow2_64(fcast64(fmant(self.data@)), fexp(self.data@) as i32); } }
 //+}
         let mantissa = high_bits_to_u64(self);
         let exponent = self.bits() - u64::from(fls64(mantissa));
@@ -388,11 +655,14 @@ impl BigUint {
 //+{
         requires self.wf()
         ensures r is Some,
-            r.unwrap() == (if fexp(self.dg()) > 128 { finf32() } else { fmul32(fcast32(fmant(self.dg())), fpow2_32(fexp(self.dg()) as i32)) }),
+            f_rounds_to(r.unwrap().finite(), r.unwrap().integral(), r.unwrap().ival(), self.v(), blen(self.dg()), 24, 128),
 //+}
     {
 //+{
-        proof { axiom_vec_u64_len(&self.data); lemma_fls_mant(self.data@); }
+        proof { axiom_vec_u64_len(&self.data); lemma_fls_mant(self.data@); lemma_float_value(self.data@, 24, 128);
+            axiom_fcast32(fmant(self.data@)); axiom_finf32();
+            if fexp(self.data@) + 63 > 128 { vstd::arithmetic::power2::lemma_pow2_strictly_increases(128, (fexp(self.data@) + 63) as nat); }
+            if fexp(self.data@) < 0x7fff_ffff { axiom_fmul_pow2_32(fcast32(fmant(self.data@)), fexp(self.data@) as i32); } }
 //+}
         let mantissa = high_bits_to_u64(self);
         let exponent = self.bits() - u64::from(fls64(mantissa));
